@@ -10,6 +10,7 @@ import (
 	"encoding/json"
 	"flag"
 	"fmt"
+	"os"
 	"testing"
 
 	"pgregory.net/rapid"
@@ -21,7 +22,7 @@ import (
 const prop = "C12"
 
 var machine = pbt.Part[subrig.History]{
-	Name: "machine", Quick: 160000, Thorough: 3200000,
+	Name: "machine", Quick: 300000, Thorough: 4000000,
 	Gen:   func(t *rapid.T) subrig.History { return subrig.Gen(t, subrig.BiasC12, pbt.IsKnown) },
 	Check: func(h subrig.History, o *pbt.Rec) pbt.Verdict { return subrig.Check(prop, h, o) },
 }
@@ -50,7 +51,12 @@ func TestProp(t *testing.T) {
 		}
 	}
 	runEnum(t, r)
-	machine.Run(r)
+	m := machine
+	if os.Getenv("VERIF_RACE") != "" {
+		// the -race build of the thorough tier runs the same machine about ten times slower
+		m.Quick, m.Thorough = m.Quick/12, m.Thorough/12
+	}
+	m.Run(r)
 	if n := subrig.Expiries.Load(); n > 3 {
 		t.Errorf("INCONCLUSIVE: %d liveness watchdogs expired in this shard (overloaded machine or a wedged resolver)", n)
 	}
